@@ -13,7 +13,7 @@ def conc_model(ctx, edges, inits, dev, conc, job):
     rng = random.Random(ctx.seed)
     kwc = dict(import_ids=[1], new_ids=[2], labels=["", "x"], wscrypt="low", max_obj=3, schemes=["SHA256withECDSA"])
     seeds = wl.pick_seeds(ctx, edges, inits, 24 if T else 8, rng)
-    conc["split_rejected"] = wl.split_selftest(ctx, seeds[:4], dev, kwc, ["Delete", "ChangePassword", "SetDefault", "SetLabel"] if T else ["Delete"])
+    conc["split_rejected"] = wl.split_selftest(ctx, seeds[:4], dev, kwc, ["Delete", "ChangePassword", "SetDefault"] if T else ["Delete"])
     mc = wl.tlc_conc(ctx, seeds, dev, kwc)
     if mc:
         cases, n_inter, n_comm, names = wl.conc_cases(ctx, seeds, mc[1], mc[2], 1200 if T else 180, rng)
